@@ -847,7 +847,10 @@ func Validate(dir Dir) error {
 				err.Reason = ReasonEdited
 			default:
 				// File was not in its original place, meaning another file was added before it.
-				err.File = ex[i].N
+				// (Unless the sum file lists more entries than there are files, e.g. a file twice.)
+				if i < len(ex) {
+					err.File = ex[i].N
+				}
 				err.Reason = ReasonAdded
 			}
 			return err
